@@ -38,6 +38,9 @@ Bodies == { <<"a", <<>> >>, <<"a", <<"x">> >>, <<"b", <<>> >>, <<"c", <<>> >> }
 Inner == SeqsBetween(Bodies, 0, MaxBody)
 Listings == { WithAddrs(<< <<"p", <<>> >> >> \o s \o << <<"q", <<>> >> >>) : s \in Inner }
        \cup { WithAddrs(s) : s \in SeqsBetween(Bodies, 0, 2) }
+       \* runs of two-instruction units in alternating orders (a b b a ...), whatever MaxBody is
+       \cup { WithAddrs(<< <<"p", <<>> >> >> \o s \o << <<"q", <<>> >> >>)
+              : s \in SeqsBetween({ <<"a", <<>> >>, <<"b", <<>> >> }, 4, 4) }
 
 Universe == [patterns |-> SetToSeq(Patterns), listings |-> SetToSeq(Listings)]
 =============================================================================
